@@ -17,6 +17,7 @@ CLAIMED = {
  "C14": ("exploration", "Competing candidates drive the real resourcelock.Interface over a shared engine under seeded schedules; the lock key's ground truth is checked as a compare-and-swap register and the recorded history is checked with porcupine against a CAS-register model.", "6 (C14)"),
  "C15": ("exploration", "Real client-go elector on the simulated clock; old leader crashes after an arbitrary request, a new leader is elected after lease expiry and probed; every revision it hands out is compared with the maximum stored revision from the ground truth.", "6 (C15)"),
  "C16": ("exploration", "Seeded request histories through the real etcd handler objects of a real NewServer node (leader via the real elector) compared in lock-step with an executable etcd-semantics reference model; unsupported shapes from a grammar must be rejected without mutation or executed exactly as the reference prescribes. Sequential: the deciding step is seeded history generation against a reference model.", "6 (C16)"),
+ "C18": ("exploration", "Two real server objects over one engine with a simulated peer transport; full request-type x role x proxy x peer-state matrix per run class, plus concurrent follower reads against a writing leader under seeded schedules and delayed responses; freshness judged against the leader's committed revision sampled at the read's invoke step, content against the MVCC model.", "6 (C18)"),
 }
 TECH = "deterministic simulation with fault injection (seeded token scheduler over testing/synctest, simkv fault seam, reference-model oracles)"
 NOTE = "Trusted: Go 1.26.8 testing/synctest quiescence, the simulator's decoder of the key layout, the hook lines (add-only, tag verif). Sampled search: clean run = evidence, not proof."
